@@ -117,6 +117,12 @@ class C17(Prop):
             self.info = mt.translate(core.REPO)
         if self.assets is None:
             self.assets = mg.list_assets()
+            caps = {}
+            for m, pth, cname, v in self.info["caps"]:
+                caps[cname] = v
+                caps[cname + "_" + m] = v
+            self.synth_specs = mg.synth_specs(self.assets, caps)
+            self.synth_paths = mg.build_synth(self.synth_specs)
 
     # ---------------------------------------------------------------- probes
     def tree(self, module):
@@ -239,6 +245,9 @@ class C17(Prop):
             size = len(mg.apply_edits(b, edits))
             layout = mg.gen_layout(rng, size)
         keep = rng.choice([2, 3, 3, 4, 8])
+        # the same bytes are scanned again at other alignments (address of the first byte modulo 16)
+        shifts = [1, 2, 3, 4, 5, 6, 7] if (pristine and "/pe/signed/" in path) else (
+            [rng.range(1, 15)] if pristine else [rng.range(1, 15), rng.range(1, 7)])
         mods = KIND_MODULES[kind]
         if rng.chance(1, 6):
             mods = FILE_MODULES
@@ -255,7 +264,7 @@ class C17(Prop):
                     fn_args.append(s[1])
         return {"asset": path, "kind": kind, "mutation": mkind, "fn_args": fn_args, "what": what, "edits": edits, "process_memory": pm,
                 "layout": layout, "modules": FILE_MODULES, "probes": probes, "keep": keep, "keep_dict": 64,
-                "keep_bytes": 24}
+                "keep_bytes": 24, "shifts": shifts}
 
     STATIC_SAMPLES = {"integer": ["0", "1", "7", "4096", "16777223", "(-1)", "9223372036854775807"],
                       "bytes": ['"KERNEL32.dll"', '".text"', '"ExitProcess"', '"12"', '"<init>"',
@@ -301,6 +310,13 @@ class C17(Prop):
         # every formatted asset pristine once (both process_memory values alternate through the rng)
         for i, a in enumerate(fmt):
             cases.append(self.gen_case(rng.fork("pristine%d" % i), a, True))
+        # cap amplification: synthetic files around every reachable documented maximum
+        for i, (name, _, m, cpath, req) in enumerate(self.synth_specs):
+            pth = self.synth_paths[name]
+            kind = {"pe": "pe", "elf": "elf", "macho": "fat" if "fat" in name else "macho"}[m]
+            c = self.gen_case(rng.fork("synth%d" % i), (pth, open(pth, "rb").read(), kind), True)
+            c.update({"mutation": "synthetic", "what": [name], "shifts": [3], "layout": None})
+            cases.append(c)
         i = 0
         while len(cases) < n:
             r = rng.fork("m%d" % i)
@@ -310,7 +326,7 @@ class C17(Prop):
         return cases
 
     def budget(self, tier):
-        return 330 if tier == "quick" else 6000
+        return 400 if tier == "quick" else 6000
 
     def corpus(self, ctx):
         self.ensure()
@@ -334,6 +350,7 @@ class C17(Prop):
                 hc.append(c)
                 continue
             h = {k: c[k] for k in ("asset", "edits", "process_memory", "layout", "modules", "keep", "keep_dict", "keep_bytes")}
+            h["shifts"] = c.get("shifts", [])
             h["op"] = "scan"
             h["probes"] = [{"tag": p["tag"], "imports": [p["module"]], "use": p["text"],
                             "rule": 'console.log("%s=", %s)' % (p["tag"], p["text"])} for p in c["probes"]]
@@ -458,6 +475,9 @@ class C17(Prop):
                 problems.append("nonconforming value at %s" % p)
         if out["hash1"] != out["hash2"] or not out["same_rules"] or not out["same_logs"] or out["error"] != out["error2"]:
             problems.append("second scan differs")
+        if out.get("shift_diff"):
+            problems.append("scanning the same bytes at another alignment gives different results: %s vs %s" % (
+                json.dumps(out["hash1"])[:120], json.dumps(out["hash_shifts"])[:200]))
         caps = {}
         for m, p, cname, v in self.info["caps"] + self.info["bytes_caps"]:
             caps[(m, ".".join(p).replace(".*", "[]"))] = (cname, v)
